@@ -712,6 +712,7 @@ PROPS = {
         "class_prefix": ["C11/"],
         "theorems": ["Hd.Eyeballs.C11_order_once", "Hd.Eyeballs.C11_deadline", "Hd.Eyeballs.C11_starts_before_finish",
                      "Hd.Eyeballs.C11_pacing", "Hd.Eyeballs.C11_first_at_zero", "Hd.Eyeballs.C11_failure_triggers_start",
+                     "Hd.TcpConnect.order_perm", "Hd.TcpConnect.C11_tcp_deadline", "Hd.TcpConnect.tcp_stagger", "Hd.TcpConnect.C10_tcp_first_success",
                      "Hd.Eyeballs.C11_initial_bound", "Hd.Eyeballs.loop_inv1", "Hd.Eyeballs.loop_inv3"],
         "streams": EB_STREAMS, "rule": EB_RULE, "assumes": EB_ASSUMES,
     },
